@@ -28,6 +28,7 @@ type c06Case struct {
 	Staged  bool          `json:"staged_wrapper_reused_with_other_settings_at_first_render"`
 	StageAt int           `json:"first_render_after_row_operations"`
 	PreGen  bool          `json:"generator_set_at_first_render"`
+	Shared  bool          `json:"rows_also_collected_into_a_second_table"`
 }
 
 type c06Call struct {
@@ -147,6 +148,18 @@ func c06Check(c *Ctx, cs *c06Case, sample bool) {
 		c.Rec.Count("staged_cases(render, change, render again through the same wrapper)", 1)
 	} else {
 		spec.Build(t0)
+	}
+	if cs.Shared {
+		// the application also collects (some of) this table's rows into a second table, in another order;
+		// the first table is what gets rendered, and its rows keep their positions in it
+		second := tabular.New()
+		rows := t0.AllRows()
+		for k := len(rows) - 1; k >= 0; k-- {
+			if !rows[k].IsSeparator() && k%2 == 0 {
+				second.AddRow(rows[k])
+			}
+		}
+		c.Rec.Count("cases_with_rows_shared_with_a_second_table", 1)
 	}
 	ht.Id, ht.Class, ht.Caption = string(cs.ID), string(cs.Class), string(cs.Caption)
 	if cs.Gen {
@@ -370,6 +383,7 @@ func c06Random(c *Ctx, i int, r *gen.R) {
 	if r.Chance(1, 2) {
 		cs.Staged, cs.StageAt, cs.PreGen = true, r.Range(0, len(spec.Rows)), r.Bool()
 	}
+	cs.Shared = r.Chance(1, 6)
 	c06Check(c, cs, true)
 }
 
